@@ -126,6 +126,31 @@ def tracking_both_frames(ego_q, ego_q2, n, policy):
     return Out(parts=parts, obs={"ego": out["base_link"][0], "map": out["map"][0]})
 
 
+def pose_update_both_frames(ego_q, ego_q2, crit_kind):
+    """A key frame is evaluated in the map frame; the next frame is derived from it (deep copy with the new ego pose
+    written into the same transform registry, as ground-truth interpolation does) and evaluated.  Its results must equal
+    those of the ego-frame rendering of that second scene."""
+    crit = _crit(crit_kind)
+    thr = [2.0, 1.0]
+    metrics = {"center_distance_thresholds": [[1.0, 1.0]], "plane_distance_thresholds": [[2.0, 2.0]]}
+    es1, gs1 = _scene_spec(1, 1, [CAR], [CAR], tag="k_")
+    es2, gs2 = _scene_spec(1, 1, [CAR], [CAR, FP], tag="n_")
+    key_pose = S.Pose("map", ego_q, tag="ego_key")
+    e1, g1 = _render(key_pose, es1, gs1)
+    f_key, _ = S.run_frame(key_pose, e1, g1, TARGETS, "default", crit, thr, metrics=metrics)
+    new_pose = S.Pose("map", ego_q2, tag="ego_new")
+    e2, g2 = _render(new_pose, es2, gs2, unix_time=50000)
+    f_map, _ = S.run_frame(new_pose, e2, g2, TARGETS, "default", crit, thr, metrics=metrics, frame_name="1",
+                           unix_time=50000, derive_from=f_key.frame_ground_truth)
+    ego = S.Pose("base_link", ego_q2, tag="ego_b")
+    e3, g3 = _render(ego, es2, gs2, unix_time=50000)
+    f_ego, _ = S.run_frame(ego, e3, g3, TARGETS, "default", crit, thr, metrics=metrics, frame_name="1", unix_time=50000)
+    s_map, s_ego = _summary(f_map, e2, g2), _summary(f_ego, e3, g3)
+    parts = {f"same_{k}": s_map[k] == s_ego[k] for k in s_map}
+    parts["same_scores"] = _close_all(_scores(f_map), _scores(f_ego))
+    return Out(parts=parts, obs={"ego": s_ego, "map": s_map})
+
+
 def obligations(pid, tier):
     quick = tier == "quick"
     det = []
@@ -138,7 +163,13 @@ def obligations(pid, tier):
     trk = [dict(ego_q="yaw_3_4_5", ego_q2="yaw_neg", n=1, policy="default")]
     if not quick:
         trk += [dict(ego_q="yaw90", ego_q2="yaw_3_4_5", n=2, policy="default")]
+    upd = [dict(ego_q="yaw_3_4_5", ego_q2="yaw_neg", crit_kind="xy")]
+    if not quick:
+        upd += [dict(ego_q="yaw_3_4_5", ego_q2="yaw_neg", crit_kind="dist"), dict(ego_q="yaw90", ego_q2="yaw_3_4_5", crit_kind="xy")]
     return [
+        Obligation("pose_update_both_frames", pose_update_both_frames, cases=upd, extras=S.frame_extras,
+                   desc="a frame derived from an evaluated key frame (same transform registry, new ego pose) evaluates "
+                        "like its ego-frame rendering"),
         Obligation("detection_both_frames", detection_both_frames, cases=det, extras=S.frame_extras,
                    desc="one scene rendered in the ego frame and in the map frame: same filtering, pairing, TP/FP/FN/TN, "
                         "AP/APH"),
